@@ -42,6 +42,9 @@ def pending(repo):
             if isinstance(n, ast.Assign) and len(n.targets) == 1 and isinstance(n.targets[0], ast.Subscript) and \
                     isinstance(n.targets[0].value, ast.Name) and n.targets[0].value.id == "pulse_labels":
                 out.add("C16-8")
+    f = _method(tree, "Processor", "run_analytically")
+    if f is not None and not any(isinstance(n, ast.Name) and n.id == "qc" for st in f.body for n in ast.walk(st)):
+        out.add("C16-9")           # the argument `qc` is never read: the circuit given is ignored
     tree = _src(repo, "src/qutip_qip/circuit/circuit.py")
     f = _method(tree, "QubitCircuit", "reverse_circuit")
     if f is not None:
